@@ -158,6 +158,25 @@ pub fn contended(n: usize) -> Tree {
     Tree::P { pl: 1, info: "first".to_string(), kids: (0..n).map(|a| PKid { a: names[a].clone(), t: second(a) }).collect() }
 }
 
+/// independent chance events declared WITHOUT an infoset and with identical weights, two of them on one path: player
+/// one sees the first coin and takes a sure 1 or bets 4 : 0 that the second coin matches it (the bet is worth 2 - only
+/// because the coins are independent); below "tails" a third fair coin and a 1 : 3 coin decide among player two's tables
+pub fn coins() -> Tree {
+    let t = |x: i64| Tree::T { pay: Num::I(x) };
+    let coin = |a: Tree, b: Tree| Tree::C { ci: "none".into(), kids: vec![CKid { w: Num::I(1), t: a }, CKid { w: Num::I(1), t: b }] };
+    let guess = |info: &str, hit_first: bool| Tree::P {
+        pl: 1,
+        info: info.into(),
+        kids: vec![
+            PKid { a: "safe".into(), t: t(1) },
+            PKid { a: "bet".into(), t: if hit_first { coin(t(4), t(0)) } else { coin(t(0), t(4)) } },
+        ],
+    };
+    let table = |info: &str, x: i64| Tree::P { pl: 2, info: info.into(), kids: vec![PKid { a: "l".into(), t: t(x) }, PKid { a: "r".into(), t: t(-x) }] };
+    let skew = Tree::C { ci: "none".into(), kids: vec![CKid { w: Num::I(1), t: table("u", 2) }, CKid { w: Num::I(3), t: table("v", -1) }] };
+    coin(guess("heads", true), coin(guess("tails", false), skew))
+}
+
 pub fn all() -> Vec<(String, Tree)> {
     let mut v = vec![
         ("pennies".to_string(), pennies()),
@@ -167,6 +186,7 @@ pub fn all() -> Vec<(String, Tree)> {
         ("lonely".to_string(), lonely()),
         ("flat".to_string(), flat()),
     ];
+    v.push(("coins".to_string(), coins()));
     v.push(("rps".to_string(), rps([1, 1, 1])));
     v.push(("rps-weighted".to_string(), rps([1, 2, 3])));
     for d in [2, 4, 6, 8] {
